@@ -30,7 +30,7 @@ for pid in ids:
                                          "the model is tied to /repo on every run by the translator (Extracted.v + Tie_*.v) and by a differential "
                                          "correspondence run (implementation vs model on the same generated inputs, compared inside Coq); the property "
                                          "oracle is also evaluated on the implementation's own outputs to produce a concrete replay." % pid),
-            "design_ref": sp.get("design_ref", "DESIGN.md §7 " + pid),
+            "design_ref": sp.get("design_ref", "DESIGN.md §6 " + pid),
         },
         "level_note": sp.get("level_note", "; ".join(sp.get("assumptions", [])) or "see DESIGN.md §8"),
         "technique": sp.get("technique", "machine-checked proof in Coq 8.16.1 over a hand-written model + checked correspondence (differential, vm_compute) + translator-generated tie lemmas"),
